@@ -314,3 +314,6 @@ ENTRIES["C02"]["text"] += (" Props/C02e ([R]): SAME SIZE -- the solver reads a p
 ENTRIES["C02"]["note"] = ("All four clauses (completeness, same size, twin closure, no duplicates) are theorems over the reals under explicit reach / regularity hypotheses that "
     "the generator's oracle also evaluates; answers admitted only by the 1 um / 1 urad tolerance of the cross-check and IEEE rounding stay sampled (predicates C02.*). "
     "Trusted: Lean kernel + 3 standard axioms; model tied by the differential run and the source translators.")
+
+ENTRIES["C14"]["text"] += (" After the repair of D23 the skip list is the set of links before the tweaked joint whose pose is unchanged (model `skipOf`, the unchanged-link "
+    "verdicts are reported by the harness from forward_with_joint_poses); offsets_exact is proved for that list, so it also covers kinematics with coupled joints.")
